@@ -88,6 +88,23 @@ Record objects_kept (od : dobj) (out : outcome) (cur cur' : obj) : Prop := mkKep
   ok_ins : out = OInserted -> In od (npay cur')
 }.
 
+(* the same four facts about the children lists (the payload of the node itself is not touched by the call) *)
+Record kids_kept (od : dobj) (out : outcome) (n n' : list obj) : Prop := mkKids {
+  kk_new : forall y, In y (npays n') -> y = od \/ In y (npays n);
+  kk_old : forall y, In y (npays n) -> In y (npays n') \/ (out = OReplaced /\ dcs y = dcs od);
+  kk_key : exists y, In y (npays n') /\ dcs y = dcs od;
+  kk_ins : out = OInserted -> In od (npays n')
+}.
+
+Lemma kids_to_objects od out d n n' m i x : kids_kept od out n n' -> objects_kept od out (Obj d n m i x) (Obj d n' m i x).
+Proof.
+  intros [K1 K2 K3 K4]. constructor.
+  - intros y. rewrite !npay_eq. cbn [In]. intros [H|H]; [right; left; exact H|]. destruct (K1 y H); tauto.
+  - intros y. rewrite !npay_eq. cbn [In]. intros [H|H]; [left; left; exact H|]. destruct (K2 y H); tauto.
+  - destruct K3 as (y & Hy & Ky). exists y. split; [rewrite npay_eq; right; exact Hy|exact Ky].
+  - intros Hi. rewrite npay_eq. right. apply K4, Hi.
+Qed.
+
 Section NodePay.
   Variable rec : obj -> obj -> obj * outcome.
   Variable dms : list N.
@@ -101,11 +118,11 @@ Section NodePay.
   Definition rec_kept (c : obj) : Prop :=
     forall o c' out, odata o = od -> sub (dcs od) (okey c) -> rec c o = (c', out) -> out <> OFail -> objects_kept od out c c'.
 
-  Lemma node_keeps_objects n o r out :
+  Lemma node_keeps_kids n o r out :
     odata o = od ->
     ForallOrdPairs disj (map okey n) -> Forall tree_ord n -> Forall (no_sibling_defect dms dm_new od) n -> Forall rec_kept n ->
     ins_loop rec dms dm_new d m i x n [] [] None o = (r, out) -> out <> OFail ->
-    objects_kept od out (Obj d n m i x) r.
+    exists n', r = Obj d n' m i x /\ kids_kept od out n n'.
   Proof.
     intros Ho Hdisj Hch Hnsd Hrec E Hout.
     assert (Hall : Forall (fun c => wfk (odata c) /\ no_sibling_defect dms dm_new od c) n).
@@ -119,11 +136,11 @@ Section NodePay.
       rewrite E in E1. injection E1 as ->.
       assert (Hy' : forall y, In y (npays n') <-> y = od \/ In y (npays n)).
       { intros y. rewrite Hy. cbn [rev npays flat_map In]. tauto. }
-      constructor.
-      + intros y. rewrite !npay_eq. cbn [In]. rewrite Hy'. tauto.
-      + intros y. rewrite !npay_eq. cbn [In]. rewrite Hy'. tauto.
-      + exists od. split; [|reflexivity]. rewrite npay_eq. right. apply Hy'. left; reflexivity.
-      + intros _. rewrite npay_eq. right. apply Hy'. left; reflexivity.
+      exists n'. split; [reflexivity|]. constructor.
+      + intros y. rewrite Hy'. tauto.
+      + intros y. rewrite Hy'. tauto.
+      + exists od. split; [|reflexivity]. apply Hy'. left; reflexivity.
+      + intros _. apply Hy'. left; reflexivity.
     - cbn [rev app].
       assert (Hcin : In c (pre ++ c :: post)) by (apply in_or_app; right; left; reflexivity).
       assert (Hwc : wfk (odata c)) by (rewrite Forall_forall in Hch; apply tree_ord_wfk, Hch, Hcin).
@@ -143,14 +160,24 @@ Section NodePay.
           + intros y. rewrite npay_replace, npay_self. cbn [In]. intros [<-|H]; [right; split; [reflexivity|symmetry; exact Ek]|left; right; exact H].
           + exists od. split; [rewrite npay_replace; left; reflexivity|reflexivity].
           + discriminate. }
-      destruct G as [G1 G2 G3 G4]. constructor.
-      + intros y. rewrite !npay_eq. cbn [In]. rewrite !npays_app, !npays_cons, !in_app_iff. intros [H|[H|[H|H]]]; try tauto.
+      destruct G as [G1 G2 G3 G4]. exists (pre ++ c' :: post). split; [reflexivity|]. constructor.
+      + intros y. rewrite !npays_app, !npays_cons, !in_app_iff. intros [H|[H|H]]; try tauto.
         destruct (G1 y H); tauto.
-      + intros y. rewrite !npay_eq. cbn [In]. rewrite !npays_app, !npays_cons, !in_app_iff. intros [H|[H|[H|H]]]; try tauto.
+      + intros y. rewrite !npays_app, !npays_cons, !in_app_iff. intros [H|[H|H]]; try tauto.
         destruct (G2 y H); tauto.
-      + destruct G3 as (y & Hy & Ky). exists y. split; [|exact Ky]. rewrite npay_eq. right.
+      + destruct G3 as (y & Hy & Ky). exists y. split; [|exact Ky].
         rewrite npays_app, npays_cons, !in_app_iff. tauto.
-      + intros Hi. rewrite npay_eq. right. rewrite npays_app, npays_cons, !in_app_iff. right; left. apply G4, Hi.
+      + intros Hi. rewrite npays_app, npays_cons, !in_app_iff. right; left. apply G4, Hi.
+  Qed.
+
+  Lemma node_keeps_objects n o r out :
+    odata o = od ->
+    ForallOrdPairs disj (map okey n) -> Forall tree_ord n -> Forall (no_sibling_defect dms dm_new od) n -> Forall rec_kept n ->
+    ins_loop rec dms dm_new d m i x n [] [] None o = (r, out) -> out <> OFail ->
+    objects_kept od out (Obj d n m i x) r.
+  Proof.
+    intros Ho Hdisj Hch Hnsd Hrec E Hout.
+    destruct (node_keeps_kids n o r out Ho Hdisj Hch Hnsd Hrec E Hout) as (n' & -> & K). apply kids_to_objects, K.
   Qed.
 End NodePay.
 
@@ -188,6 +215,23 @@ Proof.
     inversion Hdf; assumption. }
   apply (node_keeps_objects (insert_by_cpuset dms dm_new) dms dm_new d m i x (odata o) Hod Hne n o root' out eq_refl
            (ld_disj _ _ Hlvl) Hch Hnsd Hrec E Hout).
+Qed.
+
+Theorem insert_root_keeps_kids dms dm_new root o root' out :
+  disc_ord root -> disc_hyp dms dm_new root o ->
+  insert_by_cpuset dms dm_new root o = (root', out) -> out <> OFail ->
+  kids_kept (odata o) out (onch root) (onch root').
+Proof.
+  destruct root as [d n m i x]. intros [Hlvl Hch] (Hod & Hne & Hdf) E Hout. cbn [onch] in *.
+  cbn [insert_by_cpuset] in E.
+  assert (Hrec : Forall (rec_kept (insert_by_cpuset dms dm_new) (odata o)) n).
+  { rewrite Forall_forall in *. intros c Hc o1 c1 out1 Ho1 Hs1 E1 Hout1.
+    apply (insert_keeps_objects dms dm_new (odata o) Hod Hne c (Hch c Hc) (Hdf c Hc) o1 c1 out1 Ho1 Hs1 E1 Hout1). }
+  assert (Hnsd : Forall (no_sibling_defect dms dm_new (odata o)) n).
+  { rewrite Forall_forall in *. intros c Hc. specialize (Hdf c Hc). unfold defect_free in Hdf. rewrite nflatten_eq in Hdf.
+    inversion Hdf; assumption. }
+  destruct (node_keeps_kids (insert_by_cpuset dms dm_new) dms dm_new d m i x (odata o) Hod Hne n o root' out eq_refl
+              (ld_disj _ _ Hlvl) Hch Hnsd Hrec E Hout) as (n' & -> & K). exact K.
 Qed.
 
 (* cpusets never disappear from the tree *)
